@@ -32,6 +32,22 @@ fn suit_idx(s: CardSuit) -> Option<u8> {
 }
 
 fn accessor_report(w: u32) -> Vec<(&'static str, String)> {
+    // through the value and through the reference depths that iterator adaptors hand to closures (`iter()` gives `&u32`,
+    // `filter` / `find` / `max_by_key` closures get `&&u32`): method resolution must end at the same accessors
+    let r1 = &w;
+    let r2 = &r1;
+    let r3 = &r2;
+    let mut v = accessor_report_via(w, |f| f(&w));
+    for (depth, other) in [("&", accessor_report_via(w, |f| f(*r2))), ("&&", accessor_report_via2(r2)), ("&&&", accessor_report_via3(r3))] {
+        for (a, b) in v.iter_mut().zip(other.iter()) {
+            if a.1 != b.1 {
+                a.1 = format!("{} (but {} through a {}u32 receiver)", a.1, b.1, depth);
+            }
+        }
+    }
+    v
+}
+fn accessor_report_via(w: u32, _f: impl Fn(&dyn Fn(&u32) -> char) -> char) -> Vec<(&'static str, String)> {
     vec![
         ("get_card_rank", format!("{:?}", rank_idx(w.get_card_rank()))),
         ("get_card_suit", format!("{:?}", suit_idx(w.get_card_suit()))),
@@ -48,6 +64,32 @@ fn accessor_report(w: u32) -> Vec<(&'static str, String)> {
         ("binary_signature(get_card_suit)", format!("{:#x}", w.get_card_suit().binary_signature())),
         ("filter", format!("{:#x}", CardNumber::filter(w))),
     ]
+}
+macro_rules! report_through {
+    ($w:expr, $plain:expr) => {
+        vec![
+            ("get_card_rank", format!("{:?}", rank_idx($w.get_card_rank()))),
+            ("get_card_suit", format!("{:?}", suit_idx($w.get_card_suit()))),
+            ("get_rank_bit", format!("{:#x}", $w.get_rank_bit())),
+            ("get_rank_flag", format!("{:#x}", $w.get_rank_flag())),
+            ("get_rank_prime", format!("{}", $w.get_rank_prime())),
+            ("get_suit_bit", format!("{:#x}", $w.get_suit_bit())),
+            ("get_suit_flag", format!("{:#x}", $w.get_suit_flag())),
+            ("get_rank_char", format!("{}", $w.get_rank_char())),
+            ("get_suit_char", format!("{}", $w.get_suit_char())),
+            ("get_suit_letter", format!("{}", $w.get_suit_letter())),
+            ("is_blank", format!("{}", $w.is_blank())),
+            ("as_u32", format!("{:#x}", $w.as_u32())),
+            ("binary_signature(get_card_suit)", format!("{:#x}", $w.get_card_suit().binary_signature())),
+            ("filter", format!("{:#x}", CardNumber::filter($plain))),
+        ]
+    };
+}
+fn accessor_report_via2(w: &&u32) -> Vec<(&'static str, String)> {
+    report_through!(w, **w)
+}
+fn accessor_report_via3(w: &&&u32) -> Vec<(&'static str, String)> {
+    report_through!(w, ***w)
 }
 fn accessor_model(w: u32) -> Vec<(&'static str, String)> {
     match word_to_card(w) {
